@@ -184,3 +184,46 @@ func vfC13ChildrenInZoomRange(c int) {
 	}
 	vfAssert("czr-complete", vfImplies(t.Contains(u), found))
 }
+
+// ---- point -> tile: the x index of At() is valid for every longitude in [-180, 180] ----
+// IEEE-754 model (one symbolic double), latitude concrete (its image is transcendental: not claimed).
+
+var vfZoomOrder = []int{0, 1, 2, 5, 10, 17, 24, 30, 3, 4, 6, 7, 8, 9, 11, 12, 13, 14, 15, 16, 18, 19, 20, 21, 22, 23, 25, 26, 27, 28, 29}
+
+func vfZoomN(tier int) int {
+	if tier == 0 {
+		return 8
+	}
+	return len(vfZoomOrder)
+}
+
+func vfC13AtX_N(tier int) int     { return vfZoomN(tier) }
+func vfC13AtX_Label(c int) string { return fmt.Sprintf("z=%d", vfZoomOrder[c]) }
+
+func vfC13AtX(c int) {
+	z := Zoom(vfZoomOrder[c])
+	lon := vfF64("lon")
+	vfAssume(vfAnd(lon >= -180, lon <= 180))
+	t := At([2]float64{lon, 0}, z)
+	vfReach("at-x")
+	vfAssert("at-x-valid", t.X < uint32(1)<<uint32(z))
+	// the western edge maps to column 0
+	if z <= 30 {
+		w := At([2]float64{-180, 0}, z)
+		vfAssert("at-x-west-edge", w.X == 0)
+	}
+}
+
+// latitude clamp: beyond +-85.0511 the row is the first / last row (comparison-only path)
+func vfC13AtYClamp_N(tier int) int     { return 31 }
+func vfC13AtYClamp_Label(c int) string { return fmt.Sprintf("z=%d", vfZoomOrder[c]) }
+
+func vfC13AtYClamp(c int) {
+	z := Zoom(vfZoomOrder[c])
+	lat := vfF64("lat")
+	vfAssume(vfOr(lat > 85.0511, lat < -85.0511))
+	t := At([2]float64{0, lat}, z)
+	vfReach("at-y-clamp")
+	vfAssert("at-y-valid", t.Y < uint32(1)<<uint32(z))
+	vfAssert("at-y-clamp", vfIteI(lat > 0, int(t.Y), int(t.Y)+1) == vfIteI(lat > 0, 0, 1<<uint(z)))
+}
